@@ -122,6 +122,10 @@ func Known(id string, c bool) {}
 
 func Reach(label string) { Reached = append(Reached, label); fmt.Printf("VRT-REACH: %s\n", label) }
 
+// MustReach declares that some path of this harness has to Reach(label)
+// (existence obligation, checked by the driver over all explored paths).
+func MustReach(label string) {}
+
 // Enter marks the start of the code under test (C20 heap partition).
 func Enter() {}
 
